@@ -172,7 +172,7 @@ def gen_history(rng, maxlen=12, from_ctor=False):
             kd = rng.choice(["i", "O"])
             labels, _ = gen.labels_of_kind(rng, kd, rng.randint(0, 3))
             ops.append({"op": "append_axis", "name": nme, "labels": labels, "kind": kd})
-            sim.axes.append([nme, kd, labels])
+            sim.axes.append([nme, kd, list(labels)])     # (a copy: the simulation relabels its own list in place)
     return ops
 
 
